@@ -66,6 +66,7 @@ type Program struct {
 	cgTime   time.Duration
 	ren      *renameInfo
 	typeRen  map[*types.TypeName]string
+	fps      map[string][]string
 
 	NormNotes []string // what the helper-inlining pass did (reported in the evidence)
 
